@@ -12,13 +12,14 @@ cex = %r
 u, b, t = cex['u'], cex['b'], cex['t']
 np.random.rand = lambda *a: u
 r = M.xrandbetween(b, t)
-print('RANDBETWEEN(%%d, %%d) with rand() = %%r ->' %% (b, t, u), r)
-if t < b:
+print('RANDBETWEEN(%%r, %%r) with rand() = %%r ->' %% (b, t, u), r)
+import math
+if math.floor(t) < math.ceil(b):
     bad = str(r) != '#NUM!'
 else:
     bad = isinstance(r, str) or not (float(r).is_integer() and b <= r <= t)
 if bad:
-    print('REPRODUCED: RANDBETWEEN(%%d, %%d) returned %%r for rand() = %%r' %% (b, t, r, u)); sys.exit(1)
+    print('REPRODUCED: RANDBETWEEN(%%r, %%r) returned %%r for rand() = %%r' %% (b, t, r, u)); sys.exit(1)
 sys.exit(0)
 '''
 
@@ -36,6 +37,9 @@ def run(tier, seed):
     T = [dict(name='randbetween_integer_in_bounds', module='c13_sym', func='randbetween', args={'bits': 20 if quick else 30}, timeout=1500,
               engine='symtrace z3+cvc5 QF_BVFP', bounds='every pair of integer bounds |b|,|t| < 2^%d and every double u in [0,1)' % (20 if quick else 30),
               replay=lambda cex: REPLAY_RB % cex)]
+    T.append(dict(name='randbetween_fractional_bounds', module='c13_sym', func='randbetween_halves', args={'bits': 10 if quick else 14}, timeout=1500,
+                  engine='symtrace z3+cvc5 QF_BVFP', bounds='bounds = every pair of multiples of 1/2 below 2^%d, every double u in [0,1)' % (9 if quick else 13),
+                  replay=lambda cex: REPLAY_RB % dict(cex, b=cex['b'] / 2, t=cex['t'] / 2)))
     th = threading.Thread(target=run_tasks, args=(ck, T))
     th.start()
     src = open(os.path.join(ROOT, 'harness', 'c13_volatile.py')).read()
